@@ -9,8 +9,9 @@
 namespace {
 
 struct RaceMon {
-	int      active, max_active;
-	uint32_t last_id;
+	int                active, max_active;
+	uint32_t           last_id;
+	std::set<uint32_t> admitted; // pipes that reached ADD_POST
 };
 
 static void
@@ -21,6 +22,7 @@ race_pipe_cb(nng_pipe p, nng_pipe_ev ev, void *arg)
 	if (ev == NNG_PIPE_EV_ADD_POST) {
 		m->active++;
 		m->last_id = (uint32_t) nng_pipe_id(p);
+		m->admitted.insert(m->last_id);
 		if (m->active > m->max_active)
 			m->max_active = m->active;
 	} else if (ev == NNG_PIPE_EV_REM_POST) {
@@ -37,7 +39,9 @@ race_run(Params *p)
 	int        tr  = (int) p->draw("tr", 0, 2); // inproc, tcp, ipc
 	bool       a_listens = W(0, 3) != 0;
 	nng_socket A;
-	RaceMon    mon = { 0, 0, 0 };
+	RaceMon    mon;
+	mon.active = mon.max_active = 0;
+	mon.last_id                 = 0;
 	MUST(ver ? nng_pair1_open(&A) : nng_pair0_open(&A));
 	MUST(nng_pipe_notify(A, NNG_PIPE_EV_ADD_POST, race_pipe_cb, &mon));
 	MUST(nng_pipe_notify(A, NNG_PIPE_EV_REM_POST, race_pipe_cb, &mon));
@@ -82,7 +86,10 @@ race_run(Params *p)
 	// freeze the membership: nobody redials any more
 	if (mon.active == 0)
 		sim_probe("c08_race_nobody_connected");
-	// every peer talks; A may hear from at most one of them
+	// every peer talks; whatever reaches A came over a pipe that A had admitted
+	// (ADD_POST), never over one it refused -- and admitted pipes are never
+	// concurrent (checked above).  Peers may be heard one after the other when a
+	// dropped pipe is still being torn down while the sends are made.
 	for (int i = 0; i < k; i++) {
 		for (int j = 0; j < 2; j++) {
 			nng_msg *m = tag_msg(24, (uint16_t) (i + 1), 0, (uint32_t) j);
@@ -96,15 +103,23 @@ race_run(Params *p)
 		nng_msg *m = NULL;
 		if (nng_recvmsg(A, &m, NNG_FLAG_NONBLOCK) != 0)
 			break;
-		Tag t = tag_parse((const uint8_t *) nng_msg_body(m), nng_msg_len(m));
+		Tag      t   = tag_parse((const uint8_t *) nng_msg_body(m), nng_msg_len(m));
+		uint32_t via = (uint32_t) nng_pipe_id(nng_msg_get_pipe(m));
 		nng_msg_free(m);
 		if (!t.ok)
 			VIOL("corrupt_message", "A received a damaged message");
 		heard.insert((int) t.origin);
+		if (mon.admitted.count(via) == 0)
+			VIOL("message_from_refused_peer",
+			    "pair%d: a message of peer %d was delivered over pipe %u, which the PAIR socket never admitted "
+			    "(no ADD_POST): it had another peer at the time",
+			    ver, (int) t.origin, via);
 	}
+	if (mon.max_active > 1)
+		VIOL("two_peers_connected", "pair%d: %d pipes were connected to one PAIR socket at the same time", ver,
+		    mon.max_active);
 	if (heard.size() > 1)
-		VIOL("message_from_refused_peer", "pair%d: messages from %zu different peers were delivered to one PAIR socket",
-		    ver, heard.size());
+		sim_probe("c08_race_heard_successive_peers");
 	if (mon.max_active == 1)
 		sim_stat("nontrivial", 1);
 	for (auto s : peers)
